@@ -59,6 +59,7 @@ if __name__ == "__main__":
     DCFG = {"max_steps": 40, "leg": "D"}
     E["fixed-C10-xmlpart-clone-stale"] = ("C10", [{"op": "init", "source": "template:spreadsheet"}, {"op": "add_file", "via": "bytesio", "content": 1}, {"op": "clone_part", "part": "manifest", "n": 1}], "pass", DCFG)
     E["fixed-C10-document-clone-drops-unsaved"] = ("C10", [{"op": "init", "source": "sample:example.odt", "how": "path", "salt": 0}, {"op": "edit", "kind": "para", "n": 1}, {"op": "set_part", "kind": "new", "n": 2, "name": "Extra/blob2.bin"}, {"op": "clone_doc"}], "pass", DCFG)
+    E["C03-original-reads-overwritten-source-at-save"] = ("C03", [{"op": "init", "source": "sample:example.odt", "how": "path", "salt": 0}, SAVE(target="path"), {"op": "reopen", "art": 0, "how": "path", "salt": 0}, {"op": "clone_swap"}, {"op": "add_file", "via": "path", "content": 2}, SAVE(target="existing", existing=0), {"op": "save_other"}], "violation")
     for fid, ent in E.items():
         prop, ops, expect = ent[:3]
         cfg = ent[3] if len(ent) > 3 else None
